@@ -42,6 +42,7 @@ class Ctx:  # minimal stand-in
 
 for m in spec:
     key = (m["property"], m["target"])
+    existing = False
     try:
         f = refmodels.resolve(repo, m["target"])
         keep = set(m.get("keep", ()))
@@ -71,10 +72,15 @@ for m in spec:
             if not blocked:
                 break
             keep |= blocked  # a helper with early exits cannot be written in place: the model calls it, the check keeps it too
-        m["keep"] = sorted(keep)
-        src_fn = Strip().visit(ast.parse(ast.unparse(fn)).body[0])
-        ast.fix_missing_locations(src_fn)
-        text = ast.unparse(src_fn) + "\n"
+        existing = m.pop("_existing", False)
+        if existing:  # another property already has a reviewed model of this function: claim the same file
+            keep = set(m.get("keep", ()))
+            text = refmodels.model_text(m["target"])
+        else:
+            m["keep"] = sorted(keep)
+            src_fn = Strip().visit(ast.parse(ast.unparse(fn)).body[0])
+            ast.fix_missing_locations(src_fn)
+            text = ast.unparse(src_fn) + "\n"
         params = _codec.decode_params() if m.get("data_is_bytes") else None
         sig_model = _codec.signature(_codec.reference_paths(text, params, like=f, repo=repo))
         sig_impl = _codec.signature(_codec.paths_of(Ctx(repo), f, params, keep))
@@ -87,8 +93,9 @@ for m in spec:
             print("SKIP (empty components)", m["target"]); continue
     except Exception as exc:
         print("SKIP", m["target"], type(exc).__name__, str(exc)[:120]); continue
-    with open(os.path.join(refmodels.DIR, m["target"].replace(":", ".") + ".py"), "w") as h:
-        h.write(text)
+    if not existing:
+        with open(os.path.join(refmodels.DIR, m["target"].replace(":", ".") + ".py"), "w") as h:
+            h.write(text)
     if key not in have:
         index.append(m); have.add(key)
     else:
